@@ -119,6 +119,8 @@ class EditHooks(Hooks):
         if tag.get('reasked'):
             it.fault('dup')
             it.probe('query_repeated_after_edit')
+            if tag.get('foreign_unit'):
+                it.probe('foreign_unit_query_repeated_after_edit')
         if fn in ('Spectrum.bin', 'Spectrum.sample') and out.ok and isinstance(out.value, np.ndarray):
             tgt_d = it.dig(it.resolve(ev['a'][0]))
             again = tag.get('again')
@@ -177,7 +179,9 @@ class EditHooks(Hooks):
                 valid = True
             elif fn == 'Spectrum.pad' and len(pre.wave) >= 2 and k.get('mode', 'constant') in ('constant', 'edge'):
                 e = [float(x) for x in a[0]]
-                valid = 0 < e[0] < pre.wave[0] and e[1] > pre.wave[-1]
+                vals = np.asarray(k.get('values', 0))
+                valid = (len(e) == 2 and 0 < e[0] < pre.wave[0] and e[1] > pre.wave[-1] and vals.dtype.kind in 'fiu' and vals.size in (1, 2)
+                         and vals.ndim <= 1)
             elif fn == 'Spectrum.trim':
                 valid = bool(pre.value) and max(pre.value) > 0
             elif fn == 'Spectrum.to':
@@ -402,7 +406,7 @@ class SpectrumEditScenario(Scenario):
     must_hit = ['refused:resample', 'refused:append', 'crop:at-sample', 'crop:between', 'pad:inside', 'pad:outside',
                 'bin:trapz/symmetric/pp', 'bin:trapz/inside/raw', 'bin:simps/symmetric/raw', 'bin:simps/inside/pp',
                 'bin_linear_exact', 'bin_power', 'nonuniform_grid', 'idem', 'query_repeated_after_edit', 'shared_buffers',
-                'query_repeated_after_caller_write']
+                'query_repeated_after_caller_write', 'foreign_unit_query_repeated_after_edit']
     probe_names = must_hit + ['coldwarm_audit', 'refused:to', 'refused:pad', 'refused:trim', 'refused:crop']
 
     def make_fns(self):
@@ -531,6 +535,21 @@ class SpectrumEditScenario(Scenario):
                 k['values'] = rng.choice([0.25, [0.1, 0.2]])
             if rng.random() < 0.3:
                 k['sampling'] = dw * rng.choice([0.5, 1.0, 2.0])
+            if refuse and rng.random() < 0.5:
+                # an argument pad cannot honour (whatever point of the call notices it): the spectrum stays as it was
+                why = rng.choice(['mode', 'mode', 'values-length', 'values-type', 'ends-length'])
+                if why == 'mode':
+                    k['mode'] = rng.choice(['reflect', 'linear_ramp', 'bogus'])
+                    k.pop('values', None)
+                elif why == 'values-length':
+                    k['mode'] = 'constant'
+                    k['values'] = [rng.choice([0.0, 0.3])]
+                elif why == 'values-type':
+                    k['mode'] = 'constant'
+                    k['values'] = 'lots'
+                else:
+                    ends = [ends[0]]
+                return E('Spectrum.pad', [ref, ends], k, t={'expect': 'refuse', 'why': 'pad-' + why}, inplace=[ref])
             e = E('Spectrum.pad', [ref, ends], k, t={'where': 'inside' if where in ('inside', 'equal', 'deep-inside') else 'outside'},
                   inplace=[ref])
             # generator's prediction of the new grid (same formulas; only used to aim later edits)
@@ -650,7 +669,9 @@ class SpectrumEditScenario(Scenario):
             E('Spectrum.integrate', [ref], k)
         elif kind == 'sample':
             pts = sorted(rng.uniform(w[0] - 1, w[-1] + 1) for _ in range(rng.randint(1, 5)))
-            E('Spectrum.sample', [ref, pts], {'waveunit': m.unit})
+            u = m.unit if rng.random() < 0.65 else rng.choice([x for x in ('nm', 'um', 'angstrom', 'm') if x != m.unit])
+            fu = factor(m.unit, u)
+            E('Spectrum.sample', [ref, [p_ * fu for p_ in pts]], {'waveunit': u}, {'foreign_unit': u != m.unit})
         elif kind == 'check':
             E('check.integrate', [ref], {'seed': rng.randrange(10 ** 6), 'method': rng.choice(['trapz', 'simps'])})
         else:
@@ -678,11 +699,14 @@ class SpectrumEditScenario(Scenario):
                 hi = w[-1] - span * rng.uniform(0.15, 0.3)
                 centres = list(np.linspace(lo, hi, nb))
             centres = [float(x) for x in centres]
-            k = {'interp_method': method, 'ends': ends, 'preserve_power': pp, 'waveunit': m.unit}
+            u = m.unit if rng.random() < 0.65 else rng.choice([x for x in ('nm', 'um', 'angstrom', 'm') if x != m.unit])
+            fu = factor(m.unit, u)
+            centres = [x * fu for x in centres]
+            k = {'interp_method': method, 'ends': ends, 'preserve_power': pp, 'waveunit': u}
             if rng.random() < 0.2 and len(w) >= 4:
                 k['sample_method'] = 'cubic'
-            t = {'nonneg': nonneg, 'on_samples': on_samples}
-            if getattr(m, 'lin', None):
+            t = {'nonneg': nonneg, 'on_samples': on_samples and u == m.unit, 'foreign_unit': u != m.unit}
+            if getattr(m, 'lin', None) and u == m.unit:
                 t['linear'] = m.lin
             E('Spectrum.bin', [ref, centres], k, t)
 
